@@ -105,6 +105,8 @@ def catalogue():
     # map
     cat.append(("map", ("int",), lambda a: ["map", a[0], [[L(1), L(10)], [L(2), L(20)]], None]))
     cat.append(("mapd", ("int",), lambda a: ["map", a[0], [[L(1), L(10)], [L(-7), L(70)]], L(0)]))
+    cat.append(("fillround", ("int",), lambda a: ["round", ["fill_null", a[0], L(0.26)], L(1)]))
+    cat.append(("coalround", ("int", "float"), lambda a: ["round", ["coalesce", a[0], a[1], L(2.74)], L(1)]))
     cat.append(("casemixstr", ("bool", "int"), lambda a: ["cast", ["case", [[a[0], L(1.5)]], a[1]], "str"]))
     cat.append(("casemixdiv", ("bool", "int"), lambda a: ["truediv", ["case", [[a[0], L(0.5)]], a[1]], L(2)]))
     cat.append(("mapdn", ("int",), lambda a: ["map", a[0], [[L(1), L(10)]], L(None)]))
